@@ -290,17 +290,25 @@ fn delays_for(profile: DelayProfile, n: usize, j: u64, step: u64, rng: &mut Rng,
 pub fn gen_stream(desc: &ArrDesc, horizon: u64, max_events: usize, rng: &mut Rng, stats: &mut [u64; 6], force_dense: bool) -> Stream {
     match desc {
         ArrDesc::Never | ArrDesc::Poisson(..) => Stream::Leaf(vec![]),
-        ArrDesc::User(t, k) => {
-            // the process its author has in mind: k simultaneous events every T
-            let phase = if force_dense { 0 } else { rng.below((*t).max(1)) };
+        ArrDesc::User(t, k, g) => {
+            // the process its author has in mind: k simultaneous events every T (and, for g > 0,
+            // k more g ticks later)
+            let t = (*t).max(1);
+            let phase = if force_dense { 0 } else { rng.below(t) };
             let mut v = Vec::new();
             let mut x = phase;
             while x <= horizon && v.len() < max_events {
                 for _ in 0..(*k).max(1) {
                     v.push(x);
                 }
-                x += (*t).max(1);
+                if *g > 0 && x + *g <= horizon {
+                    for _ in 0..(*k).max(1) {
+                        v.push(x + *g);
+                    }
+                }
+                x += t;
             }
+            v.sort();
             Stream::Leaf(v)
         }
         ArrDesc::Periodic(t) => {
@@ -423,23 +431,40 @@ pub fn stream_admissible(desc: &ArrDesc, stream: &Stream) -> Result<(), String> 
                 Err("Never releases nothing".into())
             }
         }
-        (ArrDesc::User(t, k), Stream::Leaf(v)) => {
-            // at most k events per instant, instants on one grid of step T
+        (ArrDesc::User(t, k, g), Stream::Leaf(v)) => {
+            // at most k events per instant; all instants at base + i*T or base + g + i*T for one
+            // base (the first event may belong to a first or to a second burst)
+            if v.is_empty() {
+                return Ok(());
+            }
+            if v.windows(2).any(|w| w[0] > w[1]) {
+                return Err("events not sorted".into());
+            }
+            let t = (*t).max(1) as i128;
+            let k = (*k).max(1) as usize;
+            let g = *g as i128;
             let mut i = 0;
             while i < v.len() {
                 let mut j = i;
                 while j < v.len() && v[j] == v[i] {
                     j += 1;
                 }
-                if (j - i) as u64 > (*k).max(1) {
+                if j - i > k {
                     return Err(format!("{} events at instant {}, burst size is {}", j - i, v[i], k));
-                }
-                if i > 0 && (v[i] < v[i - 1] || (v[i] - v[0]) % (*t).max(1) != 0) {
-                    return Err(format!("event at {} is off the grid of step {}", v[i], t));
                 }
                 i = j;
             }
-            Ok(())
+            let fits = |base: i128| -> bool {
+                v.iter().all(|x| {
+                    let r = (*x as i128 - base).rem_euclid(t);
+                    r == 0 || (g > 0 && r == g % t)
+                })
+            };
+            if fits(v[0] as i128) || (g > 0 && fits(v[0] as i128 - g)) {
+                Ok(())
+            } else {
+                Err(format!("events are off the burst grid (T = {}, gap = {})", t, g))
+            }
         }
         (ArrDesc::Periodic(t), Stream::Leaf(v)) => {
             for w in v.windows(2) {
